@@ -356,6 +356,13 @@ Fixpoint node_of_value (p : N) (v : value) : option node :=
             end) m)
   end.
 
+(* ast.FloatNode.String (after 94b42ac): FormatFloat 'g', plus ".0" when the text has neither '.' nor 'e' *)
+Definition float_node_string (f : fl) : option bstr :=
+  match fl_to_string f with
+  | Some s => Some (if existsb (fun c => (c =? 46) || (c =? 101)) s then s else s ++ [46; 48])
+  | None => None
+  end.
+
 Definition soydoc_flags (n : node) : option (list bool) :=
   match n with
   | NSoyDoc _ ps => Some (map (fun q => match q with NSoyDocParam _ _ o => o | _ => false end) ps)
@@ -873,7 +880,7 @@ Definition jwalk_node (prev : option (list bool)) (n : node) : J unit :=
   | NNull _ => txt t_null
   | NString _ _ v => emit [CStrLit 39 v]
   | NInt _ z => emit [CNum (dec_of_Z z)]
-  | NFloat _ f => match fl_to_string f with Some s => emit [CNum s] | None => fun _ => OutOfModel end
+  | NFloat _ f => match float_node_string f with Some s => emit [CNum s] | None => fun _ => OutOfModel end
   | NBool _ x => txt (if x then t_true else t_false)
   | NGlobal p _ v =>
       match node_of_value p v with
@@ -933,7 +940,8 @@ Definition gen_file (fuel : nat) (name : bstr) (body : list node) : outcome (lis
         | [] => []
         | called =>
             let missing := filter (fun k => negb (existsb (bstr_eqb k) (j_infile st))) (map fst called) in
-            import_lines (o_order o missing) called ++ [CText t_nl]
+            (* difference() ranges over the Go map and (after 3edbe48) sorts the keys *)
+            import_lines (sort_strings (o_order o missing)) called ++ [CText t_nl]
         end in
       Ok (imports ++ rev (j_out st))
   | Err e => Err e | Crash e => Crash e | Diverge => Diverge | OutOfFuel => OutOfFuel | OutOfModel => OutOfModel
